@@ -9,6 +9,7 @@ import HdModel.Model.StreamsDriver
 import HdModel.Model.PoolDriver
 import HdModel.Model.ServerDriver
 import HdModel.Model.TlsDriver
+import HdModel.Model.NoPanicDriver
 /-! Line-protocol driver.  One case per line:
       `<stream> <input tokens…> | <implementation observation tokens…>`
     Output, one line per case:
@@ -33,6 +34,7 @@ def handle (line : String) : String :=
     | "srv" :: rest => Server.driverLine rest obs
     | "srvk" :: rest => Server.kernelLine rest obs
     | "tls" :: rest => Tls.driverLine rest obs
+    | "np" :: rest => NoPanic.driverLine rest obs
     | _ => (false, false, "unknown-stream", "")
   s!"{boolTok r.1} {boolTok r.2.1} {r.2.2.1} | {r.2.2.2}"
 
